@@ -1708,6 +1708,17 @@ int vnaproperty_vdelete(vnaproperty_t **rootptr, const char *format,
     int rv = -1;
 
     /*
+     * Deleting the whole tree is how a property tree is freed.  Do it
+     * without going through the parser, which allocates and so could
+     * fail (and leak the tree) just when memory is exhausted.
+     */
+    if (format[0] == '.' && format[1] == '\000') {
+	vnaproperty_free(*rootptr);
+	*rootptr = NULL;
+	return 0;
+    }
+
+    /*
      * Parse the expression and descend to the requested node.
      */
     if ((anchor = parse_and_descend(&parser, rootptr, /*set*/false,
